@@ -128,7 +128,7 @@ def gen_corpus(ctx: common.Ctx, n: int) -> Iterator[dict[str, Any]]:
 
 def run(ctx: common.Ctx) -> None:
     quick = ctx.tier == "quick"
-    n_hist, steps, n_corpus = (220, (5, 12), 200) if quick else (500, (6, 14), 700)
+    n_hist, steps, n_corpus = (220, (5, 12), 200) if quick else (200, (6, 14), 300)
     scale = float(os.environ.get("VERIF_SCALE", "1"))
     n_hist, n_corpus = max(1, int(n_hist * scale)), int(n_corpus * scale)
     ctx.rule = ("histgen edit history (3-8 modules; 26 edit operators incl. add/delete/rename module, stub appears/disappears, "
